@@ -231,9 +231,17 @@ class Run:
             if v & 8:
                 o2 = (H.SOMEIPSDLoadBalancingOption(priority=1 + (v & 3), weight=7),)
                 r2 = [refwire.opt_loadbal(1 + (v & 3), 7)]
-            svc = C.Service(c["sid"], c["iid"], c["maj"], c["minor"], options_1=(opt,), options_2=o2, eventgroups=frozenset({1}))
+            run1, ref1 = (opt,), [refwire.ep4("10.0.7.1", port, proto=int(proto))]
+            if ninst > 1 and (variant >> 13) & 3 == 0:
+                # a family of instances behind one endpoint: each first run starts with the same option and extends the run of
+                # the instance before it (offers collected into one message share one option array)
+                common = H.IPv4EndpointOption(address=ipaddress.IPv4Address("10.0.7.1"), l4proto=H.L4Protocols.UDP, port=3999)
+                run1 = (common,) + tuple(H.IPv4EndpointOption(address=ipaddress.IPv4Address("10.0.7.1"), l4proto=H.L4Protocols.TCP,
+                                                              port=4000 + j) for j in range(i))
+                ref1 = [refwire.ep4("10.0.7.1", 3999)] + [refwire.ep4("10.0.7.1", 4000 + j, proto=6) for j in range(i)]
+            svc = C.Service(c["sid"], c["iid"], c["maj"], c["minor"], options_1=run1, options_2=o2, eventgroups=frozenset({1}))
             self.insts.append(S.ServiceInstance(svc, S.ServerServiceListener(), self.prot.announcer, tm))
-            self.ref_opts.append([refwire.ep4("10.0.7.1", port, proto=int(proto))])
+            self.ref_opts.append(ref1)
             self.ref_opts2.append(r2)
         self.qlog = []  # ('q', seq, t, sid, iid, ttl, remote) | ('start', k) | ('ann_start',)
         self.raised = []
